@@ -1,13 +1,42 @@
 /-
 C07  Byte counting equals the number of matching bytes.
+
+Only statements, one-line proofs from the master lemmas, non-vacuity examples and
+`#print axioms`.
+
+How the clauses of the property are covered:
+
+  clause                                                   theorems
+  -------------------------------------------------------  -------------------------------------
+  vector `count_raw`, any lawful vector type, >= 1 vector  `generic_count`
+    ... instances SSE2 / AVX2 / NEON / wasm simd128        `sse2_count`, `avx2_count`,
+                                                           `neon_count`, `simd128_count`
+  SWAR module's scalar `One::count_raw`, every start/end   `swar_count`
+  `One::count_raw` of EVERY backend, every window           `raw_every_backend`,
+    (short, empty; reversed needs no precondition)          `raw_zero_when_start_ge_end`
+  `One::count(haystack)` of every backend (slice form)      `slice_every_backend`
+  `memchr_iter(n, hay).count()` (fresh iterator), every
+    configuration                                           `memchr_iter_count`
+  `count()` on an iterator ALREADY ADVANCED from either
+    end returns the number of matches not yet yielded       `iter_count`, `iter_count_backend`,
+                                                            `iter_count_not_yet_yielded`
+
+`Spec.countP p l` is `List.countP p l`, the number of positions of `l` whose byte satisfies `p`.
 -/
 import MemchrModel.Proofs.MemchrGeneric
 import MemchrModel.Proofs.Sensible
+import MemchrModel.Proofs.Neon
+import MemchrModel.Proofs.Swar
+import MemchrModel.Proofs.MemchrApi
+import MemchrModel.Proofs.MemchrApiIter
+import MemchrModel.Proofs.PropsBridge2
 import MemchrModel.Generated.Consts
 
 namespace Memchr.Props.C07
 
 open Memchr
+
+/-! ### the generic vector routine and its instances -/
 
 /-- The generic vector `count_raw` on ANY lawful vector type returns exactly the number of
 bytes of `[start, end)` equal to the needle, without any fault, for every memory region and
@@ -19,19 +48,170 @@ theorem generic_count (V : VecImpl) (L : Lawful V) (n1 : UInt8) (u : Nat) (hu : 
       .ok (Spec.countP (· == n1) (m.window start (end_ - start))) c' :=
   Generic.countRaw_correct V L n1 u hu m start end_ c hs he hlen
 
+/-- the unroll factor of `One` in the source is positive (re-checked against the regenerated
+constants) -/
 theorem unroll_pos : 0 < Generated.oneUnroll := by decide
 
+/-- SSE2 instance with the source's unroll factor. -/
 theorem sse2_count (n1 : UInt8) (m : Mem) (start end_ : Nat) (c : Ctr)
     (hs : m.base ≤ start) (he : end_ ≤ m.base + m.bytes.size) (hlen : start + 16 ≤ end_) :
     ∃ c', Generic.countRaw Sensible.sse2 n1 Generated.oneUnroll unroll_pos m start end_ c =
       .ok (Spec.countP (· == n1) (m.window start (end_ - start))) c' :=
   generic_count Sensible.sse2 Sensible.lawful_sse2 n1 Generated.oneUnroll unroll_pos m start end_ c hs he hlen
 
+/-- hypotheses are satisfiable: a 40-byte region at an odd base address -/
 example : ∃ (m : Mem) (start end_ : Nat), m.base ≤ start ∧ end_ ≤ m.base + m.bytes.size ∧ start + 16 ≤ end_ :=
   ⟨⟨0, 1001, Array.replicate 40 0⟩, 1003, 1041, by decide, by simp, by decide⟩
+
+/-- AVX2 instance (32 lanes, popcount of a 32-bit movemask), any unroll factor. -/
+theorem avx2_count (n1 : UInt8) (u : Nat) (hu : 0 < u) (m : Mem) (start end_ : Nat) (c : Ctr)
+    (hs : m.base ≤ start) (he : end_ ≤ m.base + m.bytes.size) (hlen : start + 32 ≤ end_) :
+    ∃ c', Generic.countRaw Sensible.avx2 n1 u hu m start end_ c =
+      .ok (Spec.countP (· == n1) (m.window start (end_ - start))) c' :=
+  generic_count Sensible.avx2 Sensible.lawful_avx2 n1 u hu m start end_ c hs he hlen
+
+/-- NEON instance: `movemask` narrows the comparison result to a 64-bit mask with one nibble per
+lane and keeps one bit per nibble (`& 0x8888888888888888`), so that `count_ones` of the mask is
+the number of matching lanes; `Neon.lawful` contains the proof. Any unroll factor, windows of at
+least 16 bytes. -/
+theorem neon_count (n1 : UInt8) (u : Nat) (hu : 0 < u) (m : Mem) (start end_ : Nat) (c : Ctr)
+    (hs : m.base ≤ start) (he : end_ ≤ m.base + m.bytes.size) (hlen : start + 16 ≤ end_) :
+    ∃ c', Generic.countRaw Neon.impl n1 u hu m start end_ c =
+      .ok (Spec.countP (· == n1) (m.window start (end_ - start))) c' :=
+  generic_count Neon.impl Neon.lawful n1 u hu m start end_ c hs he hlen
+
+/-- wasm simd128 instance, any unroll factor, windows of at least 16 bytes. -/
+theorem simd128_count (n1 : UInt8) (u : Nat) (hu : 0 < u) (m : Mem) (start end_ : Nat) (c : Ctr)
+    (hs : m.base ≤ start) (he : end_ ≤ m.base + m.bytes.size) (hlen : start + 16 ≤ end_) :
+    ∃ c', Generic.countRaw Sensible.simd128 n1 u hu m start end_ c =
+      .ok (Spec.countP (· == n1) (m.window start (end_ - start))) c' :=
+  generic_count Sensible.simd128 Sensible.lawful_simd128 n1 u hu m start end_ c hs he hlen
+
+/-- hypotheses of the 32-byte instance are satisfiable: an 80-byte region at an odd base -/
+example : ∃ (m : Mem) (start end_ : Nat), m.base ≤ start ∧ end_ ≤ m.base + m.bytes.size ∧ start + 32 ≤ end_ :=
+  ⟨⟨0, 1001, Array.replicate 80 0⟩, 1003, 1077, by decide, by simp, by decide⟩
+
+/-! ### SWAR module -/
+
+/-- `arch::all::memchr::One::count_raw` (the scalar byte-by-byte loop that replaced the SWAR
+count) for EVERY pair `start`, `end`: when `start < end` the window must lie inside the region
+(any length, any alignment); when `start >= end` there is no precondition and the result is 0. -/
+theorem swar_count (n1 : UInt8) (m : Mem) (start end_ : Nat) (c : Ctr)
+    (hb : start < end_ → m.base ≤ start ∧ end_ ≤ m.base + m.bytes.size) :
+    ∃ c', Swar.One.countRaw n1 m start end_ c =
+      .ok (Spec.countP (· == n1) (m.window start (end_ - start))) c' :=
+  Swar.One.countRaw_correct n1 m start end_ c hb
+
+/-- the precondition is satisfiable by a non-trivial input -/
+example : ∃ (m : Mem) (start end_ : Nat), start < end_ ∧
+    (start < end_ → m.base ≤ start ∧ end_ ≤ m.base + m.bytes.size) :=
+  ⟨⟨0, 3, Array.replicate 20 7⟩, 4, 22, by decide, fun _ => ⟨by decide, by simp⟩⟩
+
+/-! ### every backend -/
+
+/-- `One::count_raw` of EVERY backend (SWAR module, SSE2, AVX2, NEON, wasm simd128; including
+the wrappers' routing of windows shorter than a vector to the byte-by-byte loop and, on AVX2, of
+16..31-byte windows to SSE2) for ALL `start`, `end` with `[start, end)` inside the region,
+including `start >= end` (value 0): the number of bytes of the window equal to the needle. -/
+theorem raw_every_backend (b : Api.Backend) (n1 : UInt8) (m : Mem) (start end_ : Nat) (c : Ctr)
+    (hs : m.base ≤ start) (he : end_ ≤ m.base + m.bytes.size) :
+    ∃ c', Api.rawCount b n1 m start end_ c =
+      .ok (Spec.countP (· == n1) (m.window start (end_ - start))) c' :=
+  Api.C07_raw b n1 m start end_ c hs he
+
+/-- for every backend, with NO hypothesis on the pointers, `count_raw` returns 0 when
+`start >= end`, taking no step and performing no load -/
+theorem raw_zero_when_start_ge_end (b : Api.Backend) (n1 : UInt8) (m : Mem) (start end_ : Nat)
+    (c : Ctr) (h : start ≥ end_) : Api.rawCount b n1 m start end_ c = .ok 0 c :=
+  Bridge2.rawCount_reversed b n1 m start end_ c h
+
+/-- hypotheses are satisfiable: a 40-byte region at an odd base address, a 5-byte window -/
+example : ∃ (m : Mem) (start end_ : Nat), m.base ≤ start ∧ end_ ≤ m.base + m.bytes.size ∧
+    start < end_ :=
+  ⟨⟨0, 1001, Array.replicate 40 0⟩, 1003, 1008, by decide, by simp, by decide⟩
+
+/-- `<backend>::memchr::One::count(haystack)` (slice form) of every backend: the number of bytes
+of the slice equal to the needle, for every valid slice (every length from 0, every
+alignment). -/
+theorem slice_every_backend (b : Api.Backend) (n1 : UInt8) (hay : Slice) (hv : hay.Valid)
+    (c : Ctr) :
+    ∃ c', Api.sliceCount b n1 hay c = .ok (Spec.countP (· == n1) hay.toList) c' :=
+  Bridge2.sliceCount_toList b n1 hay hv c
+
+/-- `memchr_iter(n1, haystack).count()` — the `Iterator::count` specialisation of `Memchr` on a
+FRESH iterator — under every build / CPU configuration: the number of bytes of the haystack
+equal to the needle. (Stated on the address window in `Api.count_correct`; `hay.toList` is that
+window.) -/
+theorem memchr_iter_count (cfg : Api.Cfg) (n1 : UInt8) (hay : Slice) (hv : hay.Valid) (c : Ctr) :
+    ∃ c', Api.count cfg n1 hay c = .ok (Spec.countP (· == n1) hay.toList) c' :=
+  Bridge2.count_toList cfg n1 hay hv c
+
+/-- the same in the form proved in `Proofs/MemchrApi.lean` (address window of the slice) -/
+theorem memchr_iter_count_window (cfg : Api.Cfg) (n1 : UInt8) (hay : Slice) (hv : hay.Valid)
+    (c : Ctr) :
+    ∃ c', Api.count cfg n1 hay c =
+      .ok (Spec.countP (· == n1) (hay.mem.window hay.ptr hay.len)) c' :=
+  Api.count_correct cfg n1 hay hv c
+
+/-- a valid, non-trivial slice: bytes 3..13 of a 40-byte region at an odd address -/
+example : (⟨⟨0, 1001, Array.replicate 40 0⟩, 3, 10⟩ : Slice).Valid := by
+  simp [Slice.Valid]
+
+/-! ### count on a partially consumed iterator -/
+
+/-- "When called on an iterator that has already been advanced from either end, count() returns
+the number of matches not yet yielded": take a fresh `Memchr`/`Memchr2`/`Memchr3` iterator (any
+configuration, any haystack, any needles), apply ANY finite sequence `ops` of `next` /
+`next_back` / `size_hint` / `clone().count()` calls, then call `count`. The run does not fault,
+and `count` returns the length of what the abstract iterator (see `Props/C06.lean`: the sorted
+list of all match positions, `next` pops the front, `next_back` pops the back) has left. For
+`Memchr` this is `count_raw` on the CURRENT window `[start, end)`, for `Memchr2`/`Memchr3` the
+default `next` loop. -/
+theorem iter_count (cfg : Api.Cfg) (ns : Needles) (hay : Slice) (hv : hay.Valid)
+    (ops : List Api.Op) (c : Ctr) :
+    ∃ outs it' c' c'', Api.Iter.run (Api.RawFns.ofCfg cfg ns hay.mem) ops (Api.Iter.new hay) c
+        = .ok (outs, it') c' ∧
+      it'.countWith (Api.RawFns.ofCfg cfg ns hay.mem) c'
+        = .ok (Api.absRun ops (Api.allMatches hay ns)).2.length c'' :=
+  Api.C07_iter_count cfg ns hay hv ops c
+
+/-- the same for `OneIter`/`TwoIter`/`ThreeIter` of every backend's wrapper module -/
+theorem iter_count_backend (b : Api.Backend) (ns : Needles) (hay : Slice) (hv : hay.Valid)
+    (ops : List Api.Op) (c : Ctr) :
+    ∃ outs it' c' c'', Api.Iter.run (Api.RawFns.ofBackend b ns hay.mem) ops (Api.Iter.new hay) c
+        = .ok (outs, it') c' ∧
+      it'.countWith (Api.RawFns.ofBackend b ns hay.mem) c'
+        = .ok (Api.absRun ops (Api.allMatches hay ns)).2.length c'' :=
+  Api.C07_iter_count_backend b ns hay hv ops c
+
+/-- The same with "not yet yielded" spelled out on the REAL outputs, without the abstract
+iterator: `Bridge2.fronts ops outs` / `Bridge2.backs ops outs` are the positions the `next` /
+`next_back` calls of the prefix actually returned; the value `k` returned by `count` afterwards
+satisfies  (yielded from the front) + k + (yielded from the back) = number of match positions
+of the haystack. -/
+theorem iter_count_not_yet_yielded (cfg : Api.Cfg) (ns : Needles) (hay : Slice) (hv : hay.Valid)
+    (ops : List Api.Op) (c : Ctr) :
+    ∃ outs it' c' k c'', Api.Iter.run (Api.RawFns.ofCfg cfg ns hay.mem) ops (Api.Iter.new hay) c
+        = .ok (outs, it') c' ∧
+      it'.countWith (Api.RawFns.ofCfg cfg ns hay.mem) c' = .ok k c'' ∧
+      (Bridge2.fronts ops outs).length + k + (Bridge2.backs ops outs).length
+        = (Api.allMatches hay ns).length :=
+  Bridge2.count_after_prefix cfg ns hay hv ops c
 
 end Memchr.Props.C07
 
 #print axioms Memchr.Props.C07.generic_count
 #print axioms Memchr.Props.C07.unroll_pos
 #print axioms Memchr.Props.C07.sse2_count
+#print axioms Memchr.Props.C07.avx2_count
+#print axioms Memchr.Props.C07.neon_count
+#print axioms Memchr.Props.C07.simd128_count
+#print axioms Memchr.Props.C07.swar_count
+#print axioms Memchr.Props.C07.raw_every_backend
+#print axioms Memchr.Props.C07.raw_zero_when_start_ge_end
+#print axioms Memchr.Props.C07.slice_every_backend
+#print axioms Memchr.Props.C07.memchr_iter_count
+#print axioms Memchr.Props.C07.memchr_iter_count_window
+#print axioms Memchr.Props.C07.iter_count
+#print axioms Memchr.Props.C07.iter_count_backend
+#print axioms Memchr.Props.C07.iter_count_not_yet_yielded
